@@ -469,10 +469,12 @@ def table_check(pid, tier, work, module, cfg, runs, rule, assumptions, mc=(), ex
     mcs = [C.model_check(m, c, work) for m, c in mc]
     classes, samples = set(), []
     nlines = 0
-    for name, args in runs:
+    for run in runs:
+        name, args = run[0], run[1]
+        binary = run[2] if len(run) > 2 else "vipsim"
         tp = os.path.join(work, name + ".ndjson")
         st = os.path.join(work, name + ".status")
-        _, status, rc, out = C.run_sim({}, work, name, args=[a.replace("@TRACE", tp).replace("@STATUS", st).replace("@WORK", work) for a in args])
+        _, status, rc, out = C.run_sim({}, work, name, binary=binary, args=[a.replace("@TRACE", tp).replace("@STATUS", st).replace("@WORK", work) for a in args])
         if status != "OK":
             raise C.Machinery("driver %s did not finish: status=%r rc=%d\n%s" % (name, status, rc, out[-3000:]))
         job = Job(name, None, module, cfg)
@@ -519,7 +521,9 @@ def table_check(pid, tier, work, module, cfg, runs, rule, assumptions, mc=(), ex
 
 def c19(pid, tier, work, replay):
     s = C.seed()
-    runs = [("c19-table-memory", ["uritable", "memory", "@WORK/b19m", "@TRACE", "@STATUS"])]
+    C.build(("real", "node"))
+    runs = [("c19-table-memory", ["uritable", "memory", "@WORK/b19m", "@TRACE", "@STATUS"]),
+            ("c19-binary", ["binaddr", os.path.join(C.BIN, "vipnode"), "@TRACE", "@STATUS"], "vipreal")]
     if tier != "quick":
         runs.append(("c19-table-badger", ["uritable", "badger", "@WORK/b19b", "@TRACE", "@STATUS"]))
     nt, nops = sized(tier, (12, 40), (200, 60))
@@ -528,7 +532,8 @@ def c19(pid, tier, work, replay):
         pid, tier, work, "VipNodeURI", "VipNodeURI.cfg", runs,
         "complete table: override absent/present x scheme {enode,http,none} x user {none,empty,own,other,own:password} x host "
         "{none,[::],0.0.0.0,IPv4,IPv6,DNS} x port {none,given} x {plain,path,query} x source address {IPv4,IPv6,none} = 1623 cases, each "
-        "through a real signed vipnode_connect; plus the stored URI of every host registration of random sessions",
+        "through a real signed vipnode_connect; plus the stored URI of every host registration of random sessions; plus the built `vipnode pool` "
+        "binary: a host connecting over IPv4 and IPv6 loopback, with and without an X-Forwarded-For header, asked for by a client",
         POOL_ASSUME + ["scheme-less overrides are not URIs: refusing them, using them or falling back to the default are all accepted as long as the stored address carries the own id and a supplied-or-source host"],
         extra_jobs=extra)
 
@@ -723,8 +728,11 @@ def c14(pid, tier, work, replay):
 
 def c17(pid, tier, work, replay):
     s = C.seed()
+    C.build(("real", "race", "node"))
     runs = [("c17-io", "vipreal", ["codecstress", str(s), str(sized(tier, 40, 600)), "io", "@TRACE", "@STATUS"], "x"),
-            ("c17-sockets", "viprace", ["codecstress", str(s + 1), str(sized(tier, 16, 120)), "sockets", "@TRACE", "@STATUS"], "x")]
+            ("c17-sockets", "viprace", ["codecstress", str(s + 1), str(sized(tier, 16, 120)), "sockets", "@TRACE", "@STATUS"], "x"),
+            # the codec the shipped pool binary really uses: 120 requests pipelined on one connection, answered concurrently
+            ("c17-binary", "vipreal", ["binpipe", os.path.join(C.BIN, "vipnode"), str(s), "@TRACE", "@STATUS"], "x")]
     if tier != "quick":
         for i in range(4):
             runs.append(("c17-sockets-%d" % i, "viprace", ["codecstress", str(s + 10 + i), "120", "sockets", "@TRACE", "@STATUS"], "x"))
@@ -734,7 +742,9 @@ def c17(pid, tier, work, replay):
         "delivered whole, cut at and next to every message boundary, bytewise, at every single position (streams <= 400 bytes, exhaustive), "
         "at random positions, and with two messages coalesced into one read; gorilla and gobwas WebSocket codecs and the HTTP server/service "
         "pair over real sockets whose writes are dribbled out or held back and merged, in both directions, with 8 concurrent writers on the "
-        "gorilla codec and concurrent HTTP callers, under the race detector; distinct = (codec, cut class)",
+        "gorilla codec and concurrent HTTP callers, under the race detector; every message size 100..4400 on one connection and 18 buffer-boundary "
+        "sizes as first message of a fresh connection; 10 connections dialled before any is read; the built `vipnode pool` binary answering 3 x 120 "
+        "pipelined requests (3-32 KB replies) on one connection; distinct = (codec, cut class)",
         ["chunk boundaries on real sockets are forced by small writes and delays; the kernel may still merge them"],
         race_pid="C17")
 
